@@ -656,7 +656,7 @@ theorem headerStep_eq (st0 : HState) (line : Bytes) (strip : Int) :
        | some r => (parseFileLine r strip).map fun res => ({ st with patch := { p with indexPath := res.1 } }, true)
        | none =>
        match consumeStr (str "Prereq: ") line with
-       | some r => (parseFileLine r strip).map fun res => ({ st with patch := { p with prerequisite := res.1 } }, true)
+       | some r => (parseFileLine r 0).map fun res => ({ st with patch := { p with prerequisite := res.1 } }, true)
        | none =>
        match consumeStr (str "diff --git ") line with
        | some r =>
